@@ -207,6 +207,22 @@ def rule_choices(run):
     # the others branch is inside the emitted list between the branches and `end case;`
     ok = src(f.node).find("when others") < src(f.node).find("end case;")
     run.ob(ok, "CaseWhen.write", file=m.rel, line=f.node.lineno, detail="others-before-end", expected="others branch precedes `end case;`", found="ok" if ok else "order changed")
+    # the front end only builds a case statement from pairwise DISTINCT constant choices (a repeated pattern is legal
+    # Python - the first one wins - but an illegal VHDL case): the eligibility test compares every choice with the ones seen
+    gen = run.idx.mod("cohdl/_compiler/frontend/_generate_ir.py")
+    cbs = [g for q, g in gen.functions.items() if q.endswith("try_gen_case_when.<locals>.check_branches")]
+    if len(cbs) != 1:
+        raise AnalysisError("anchor vanished: check_branches of try_gen_case_when")
+    cb = cbs[0]
+    loops = [l for l in walk_local(cb.node) if isinstance(l, ast.For) and isinstance(l.target, ast.Name)]
+    lv = loops[0].target.id if loops else None
+    dup = False
+    for c in ast.walk(cb.node):
+        if isinstance(c, ast.Compare) and len(c.ops) == 1 and isinstance(c.ops[0], ast.Eq) and lv in (dotted(c.left), dotted(c.comparators[0])) and dotted(c.left) != dotted(c.comparators[0]):
+            guard = [anc for anc in gen.parents.ancestors(c) if isinstance(anc, ast.If)]
+            if any(any(isinstance(r, ast.Return) and isinstance(r.value, ast.Constant) and r.value.value is False for r in ast.walk(g)) for g in guard):
+                dup = True
+    run.ob(dup, "try_gen_case_when.check_branches", file=gen.rel, line=cb.node.lineno, detail="distinct-choices", expected="equal constant choices make the chain ineligible for a case statement (fall back to if/else)", found="ok" if dup else "choices are never compared: `case \"00\"` twice is emitted as two identical `when` choices")
     s = m.func("SelectWith.write")
     # abstract evaluation on the two-point domain default in {None, value}
     others_elems = [e for e in ast.walk(s.node) if isinstance(e, ast.ListComp) and "when others" in P.T(e.elt)]
